@@ -137,7 +137,7 @@ Example c20_validation_sensitive :
                            then mkVX (vx_mod y) (vx_coll y) (vx_map y) (vx_kind y) (vx_owner y) (vx_from y)
                                      ["CurrentBatchId"%string] (vx_how y) else y) val_xrefs in
    xrefs_keyed xs = false) /\
-  (8 <= Z.of_nat (List.length (filter (fun x => negb (String.eqb (vx_kind x) "") &&
+  (7 <= Z.of_nat (List.length (filter (fun x => negb (String.eqb (vx_kind x) "") &&
                                                 negb (String.eqb (vx_owner x) (vx_kind x))) val_xrefs))).
 Proof. vm_compute. repeat split; try reflexivity; intro; discriminate. Qed.
 
